@@ -40,6 +40,33 @@ CLAIMED = {
             "coefficient flagged disabled is NaN-poisoned, data is packed through original_coefficient_positions and the original constant order, and the result must equal R keyed by the UFL objects.",
             "A dead read of a disabled coefficient that cannot reach A is not observable; data alphabet as C01.",
             "DESIGN.md §4 C05"),
+    "C04": ("oracle-engine", "bounded-exhaustive exploration of expression recipes x point sets x every (facet, permutation code) against a reference model",
+            "Deviation graph over expression recipes (cell, geometry class, scalar/vector/tensor kind, argument element and operator, point set, scalar type); facet point sets are evaluated for "
+            "every local facet and every permutation code; kernel output (on pre-filled A) must equal R's A[point][component][dof]; descriptor fields are recomputed from the UFL expression.",
+            "R in expression mode uses its own sequence of UFL preprocessing passes and core basix; continuous inputs from the alphabet.",
+            "DESIGN.md §4 C04"),
+    "C07": ("lvm+schedules", "exhaustive call-sequence enumeration on the compiled kernels + complete LVM write trace + schedule exploration (preemption-bounded) over shared static objects",
+            "Per kernel of the corpus (integrals and expressions): all call sequences of length <= 3 over two input sets on two pre-filled A buffers against A <- A + T; complete write trace of the "
+            "captured L-AST (only '+=' into A, no read of A, inputs never written); static-storage scan of the C text; all interleavings (bound 1/2) of two invocations at accesses to shared static "
+            "objects - one trace when none exists; free-running OS threads on the compiled kernel.",
+            "Machine-level C interleavings are not enumerable; the LVM is bound to the compiled kernel by a conformance run on every kernel; thread pass is a check, not a proof.",
+            "DESIGN.md §4 C07, §2.3"),
+    "C08": ("lvm", "exhaustive execution of the captured L-AST over all entity/permutation values with per-access extent checking (explicit enumeration of every loop iteration)",
+            "For every kernel of the corpus the LVM executes the captured AST for all valid entity and permutation values (full product up to 64/2500, else a family covering every value of every index) "
+            "and checks every access of every loop iteration per dimension against declared table sizes and harness-computed extents; NULL entity/permutation pointers where the contract allows; "
+            "the compiled kernel runs on the same inputs inside NaN/canary moats and must agree; thorough adds clang ASan/UBSan builds with exact-size heap buffers.",
+            "Index expressions are data independent (checked implicitly by LVM/C agreement); kernels above the access budget are covered by moats/ASan only (counted in evidence).",
+            "DESIGN.md §4 C08, §2.3"),
+    "C09": ("oracle-engine", "bounded-exhaustive exploration: corpus x all four scalar types x {real, complex} data and every math-table entry, against the reference model",
+            "Every configuration of the C09 corpus and every math-table entry x arity is compiled for float64/float32/complex128/complex64; on real data all must agree with R within their "
+            "precision, on complex data the complex kernels must equal R in complex arithmetic with UFL's conjugate placement.",
+            "Complex data keeps principal branches unambiguous; single precision compared at 3e-4.",
+            "DESIGN.md §4 C09"),
+    "C10": ("oracle-engine", "bounded-exhaustive metamorphic exploration: corpus x option settings, default-option kernel as oracle",
+            "For every configuration of the C10 corpus the form is compiled with default options and with sum_factorization / part=diagonal / a table-tolerance grid, and the outputs are compared "
+            "call by call on identical inputs (every entity, code pairs as C02 quick): equality to rounding, diag(full), |delta| <= 100(rtol+atol); options applied where they do not apply must be no-ops.",
+            "Tensor rule verified identical to the default rule for degrees 0..30; default-option kernels themselves are checked against R in C01/C02.",
+            "DESIGN.md §4 C10"),
 }
 
 NOT_YET = "check not built yet in this session (planned, see DESIGN.md §8); not claimed until its command exists"
@@ -88,6 +115,10 @@ def main():
 
 NA = {}
 ENGINES = [
+    {"name": "lvm", "path": "mc/lvm.py", "serves_properties": ["C07", "C08", "C17"],
+     "kind_free_text": "capture of the L-AST actually formatted + interpreter (AST -> Python) with per-access tracing; bound to the compiled C kernel by conformance runs"},
+    {"name": "lvm+schedules", "path": "mc/checks/C07.py", "serves_properties": ["C07"],
+     "kind_free_text": "call-sequence enumeration on compiled kernels and baton-scheduled interleaving of LVM invocations over shared static objects"},
     {"name": "oracle-engine", "path": "mc/engine.py", "serves_properties": ["C01", "C02", "C04", "C05", "C09", "C10", "C11"],
      "kind_free_text": "deviation-graph BFS over form configurations (mc/space.py), real JIT compilation, moated kernel calls, independent reference model R (mc/oracle.py)"},
     {"name": "numbering-explorer", "path": "mc/checks/C03.py", "serves_properties": ["C03"],
